@@ -128,6 +128,11 @@ class Session:
     # ------------------------------------------------------------------
     def cmd(self, ev, c, fields):
         self.stats['cmds'] += 1
+        # b'@PAYLOAD' / b'@PAYLOAD1' stand for the last / last-but-one DUMP reply of this session (explicit scenarios)
+        if any(isinstance(f, bytes) and f.startswith(b'@PAYLOAD') for f in fields):
+            fields = [(self.payloads[-1 - int(f[8:] or 0)] if len(self.payloads) > int(f[8:] or 0) else b'no-payload-yet')
+                      if isinstance(f, bytes) and f.startswith(b'@PAYLOAD') else f for f in fields]
+            ev = ('cmd', c, fields)
         name = Cn.name_of(fields)
         before = self.impl.snapshot_struct() if self.observers else None
         if self.sched:
